@@ -66,7 +66,7 @@ class StoreRun:
         self.nontrivial = {}
         self.fresh = 0
         self.samples = []
-        self.uid_pool = ["uid-1", "uid-2", "uid-3", "UID-1", "uid 2", "u,3;x"]
+        self.uid_pool = ["uid-1", "uid-2", "uid-3", "UID-1", "uid 2", "u,3;x", "uid-1 ", " uid-2"]
         self.bytes_hist = {}  # name -> served contents it has had
 
     def count(self, k, n=1):
